@@ -104,7 +104,10 @@ def run(ctx):
                 keep.append(c)
         classes = keep
     scens = [scenario(c, random.Random(ctx.seed * 7919 + i)) for i, c in enumerate(classes)]
-    out = cachesim.run_scenarios_stores(ctx, tree, scens, 6, disk_sample=40)      # memory cache for all, a sample on rock and ufs
+    # a refresh_pattern rule with reload-into-ims for OTHER urls (the scenarios use the default rule): its mere presence makes
+    # Squid look client no-cache requests up in the cache instead of bypassing it
+    rp = 'refresh_pattern -i \\.ims$ 0 20% 4320 reload-into-ims\nrefresh_pattern -i \\.ign$ 0 20% 4320 ignore-reload\nrefresh_pattern . 0 20% 4320\n'
+    out = cachesim.run_scenarios_stores(ctx, tree, scens, 6, disk_sample=40, conf_extra=rp)      # memory cache for all, a sample on rock and ufs
     hist = [{'ev': cachesim.strip_for_tlc(ev)} for _, ev in out]
     rej = escen.validate(ctx, os.path.join(SPEC, 'Trace_Freshness.tla'), os.path.join(SPEC, 'Trace_Freshness.cfg'), hist, 'fresh')
     ctx.log('realised %d scenarios; P-rejected %d' % (len(out), len(rej)))
